@@ -50,7 +50,10 @@ func c14Reset(c *Ctx, fail func(kind string, sig map[string]interface{}, what st
 	}
 	want := roundProj(ref.Snapshot(), round)
 	ref.Close()
-	for _, at := range []uint64{1, 3} { // the reset arrives when the poller is about to save this offset
+	// at = 1, 3: the reset arrives when the poller is about to save this offset (inside a tick);
+	// at = 0: before the poller has started (sequential order reset;poll); at = 99: after the poller has
+	// worked through the board and is between two ticks (sequential order poll;reset)
+	for _, at := range []uint64{1, 3, 0, 99} {
 		e := NewNodeEnv(newEnvDir(c), me)
 		e.Rounds[round] = true
 		for _, it := range h {
@@ -63,8 +66,11 @@ func c14Reset(c *Ctx, fail func(kind string, sig map[string]interface{}, what st
 		var resetErr error
 		var fsmSvc fsmservice.FSMService
 		hs := hookState{State: e.St}
+		resetNow := func() {
+			_, resetErr = fsmSvc.ResetFSMState(&dto.ResetStateDTO{NewStateDBDSN: filepath.Join(e.Dir, fmt.Sprintf("state-after-reset-%d", at))})
+		}
 		hs.before = func(o uint64) {
-			if o == at {
+			if o == at && at != 0 && at != 99 {
 				once.Do(func() {
 					_, resetErr = fsmSvc.ResetFSMState(&dto.ResetStateDTO{NewStateDBDSN: filepath.Join(e.Dir, fmt.Sprintf("state-after-reset-%d", at))})
 				})
@@ -87,8 +93,21 @@ func c14Reset(c *Ctx, fail func(kind string, sig map[string]interface{}, what st
 		if err != nil {
 			panic(err)
 		}
+		if at == 0 {
+			once.Do(resetNow)
+		}
 		done := make(chan struct{})
 		go func() { defer close(done); n.Poll() }()
+		if at == 99 {
+			// let the poller finish the board on the old state, then reset between two ticks
+			for dl := time.Now().Add(10 * time.Second); time.Now().Before(dl); time.Sleep(200 * time.Millisecond) {
+				if off, _ := e.St.LoadOffset(); off == uint64(len(h)) {
+					break
+				}
+			}
+			time.Sleep(300 * time.Millisecond) // the tick that found the last message has returned
+			once.Do(resetNow)
+		}
 		// the poller works through the board (one tick per second); a correct node ends with the
 		// whole board replayed on the fresh state - wait for that, generously
 		got := ""
@@ -105,7 +124,17 @@ func c14Reset(c *Ctx, fail func(kind string, sig map[string]interface{}, what st
 		<-done
 		snap := e.Snapshot()
 		e.Close()
-		c.Case("reset-vs-poll", true, "skip c14reset", "skip c14reset")
+		// the model (Node/ResetPoll.v): a board of len(h) messages, none handled before, the request served
+		// after p steps of the poller (fetch = 1 step, then handle / save-offset alternate)
+		p := 2 * int(at)
+		if at == 99 {
+			p = 2*len(h) + 1
+		}
+		obsRep := "lost"
+		if got == want {
+			obsRep = "all"
+		}
+		c.Case("reset-vs-poll", true, fmt.Sprintf("resetpoll %d 0 %d", len(h), p), fmt.Sprintf("resetpoll offset=%d replayed=%s", off, obsRep))
 		if resetErr != nil {
 			fail("probe-failed", map[string]interface{}{}, "harness: ResetFSMState failed: "+resetErr.Error(), nil)
 			continue
